@@ -20,9 +20,13 @@ Proved, for every input and every token the lexer emits:
 * `token_positions_true_partial` — the reported line is the true line of `Pos`; the reported
   column is the true column of `Pos` unless the classifier of the known finding
   `hash-comment-column` holds at the token;
-* `token_starts_at_first_character` / `token_text_at_pos` — `Pos` IS the token's first character
-  (comment tokens: the first byte of the comment text, the opener directly before it — they are
-  meta data and never reach an error or a break point);
+* `token_starts_at_first_character` / `token_text_at_pos` — at `Pos` stands a non-blank rune and
+  (words, numbers, comments) the token's text; comment tokens and the error token of an
+  unterminated block comment: the first byte of the comment text, the opener directly before it.
+  NOT proved: the gap clause (only blanks and comments between the end of one token's text and
+  the `Pos` of the next) and the extent of string / error tokens — a lexer starting every word at
+  its second byte would satisfy these two theorems; the driver's independent scan
+  (`expectedPositions`) tests the gap on every case, `C14Lex` gives the extent of literals;
 * the invariant between tokens (`lexer_pos_invariant_partial`, partial for the same `#` staleness)
   and the loop / scanner lemmas it rests on.
 
@@ -212,7 +216,7 @@ theorem stale_column_exact (input : List Nat) :
         c.val.getLast? = some 10 ∧ t.col - (t.pos : Int) = c.col - (c.pos : Int) :=
   fun t ht hne => (lex_ok input t ht hne).1.2
 
-/-! ## Pos is the token's first character -/
+/-! ## What stands at Pos (the gap between tokens is tested, not proved) -/
 
 /-- **token_starts_at_first_character.** Every token other than EOF and comments starts inside
     the input at a rune that is not blank (`blank` = unicode.IsSpace ∨ unicode.IsControl: what
